@@ -28,6 +28,9 @@ ALL_CONS = ["CollP", "CollP16", "CollF", "CollG", "OptP", "IfP", "TBP", "TBPe", 
 # switches over signed / wide selectors) that have few or no domain values: the model requires Enc to classify their
 # values and Dec to stay total on arbitrary bytes
 MISUSE_CONS = ["CollP32", "MisOpt", "MisTup", "MisSel", "MisSel2", "MisName", "MisName2", "MisUp", "MisFlagS", "MisEnumW", "MisBitS"]
+# a context-dependent element under every container kind, below a template with a same-named decoy field one level up
+CTX_CONS = ["CtxCollP", "CtxCollF", "CtxCollG", "CtxTup", "CtxTmpl", "CtxRootG", "CtxRootTB", "CtxOptP", "CtxIfP", "CtxTBP",
+            "CtxTBG", "CtxTBT", "CtxEnum", "CtxFlag", "CtxAdapt", "CtxOptF"]
 INVS = ["RoundTrip", "Compose", "SizeSound", "EndianAgnostic", "DecTotal", "DecProbe", "EncTotal"]
 TAILS = [b"", b"\x00", b"\xff\x01", b"\x00\x00\x07"]
 KEY_ORDERS = [0, "rev", 1, 2, 3, 4, 5]   # 0 = spec order; all 6 permutations for <= 3 keys, reverse for any size
@@ -174,11 +177,12 @@ def decorate(tree):
             if _ctx_free(t["c"]):
                 t["lazy"] = True
         elif k in ("lenswitch", "enumswitch", "ctxswitch"):
-            t["ch"] = [dict(c, t=rec(c["t"])) for c in t["ch"]]
+            # payloads of switches get the flavours whose plain-data form differs (enum / flag adapters)
+            t["ch"] = [dict(c, t=wrap_int(c["t"])) for c in t["ch"]]
             if k == "ctxswitch":
-                t["dflt"] = [rec(x) for x in t["dflt"]]
+                t["dflt"] = [wrap_int(x) for x in t["dflt"]]
         elif k == "flagswitch":
-            t["ch"] = [dict(c, t=rec(c["t"])) for c in t["ch"]]
+            t["ch"] = [dict(c, t=wrap_int(c["t"])) for c in t["ch"]]
         elif k == "bitfield":
             t["dc"] = True
         return t
@@ -599,7 +603,7 @@ class Gen:
             opts += ["optprefix", "flagswitch"]
         if last and not nonempty and not avoid:
             opts += ["ifpresent", "lenswitch", "collgreedy"]
-        if any(fr for fr in env[:2]):
+        if any(fr for fr in env[:2]) or (len(env) >= 2 and env[-1]):
             opts += ["ctxswitch", "ctxswitch"]
         k = r.choice(opts)
         d = depth - 1
@@ -684,6 +688,8 @@ class Gen:
             return {"k": "flagswitch", "f": f, "ch": ch}
         if k == "ctxswitch":
             ups = [u for u in (0, 1) if u < len(env) and env[u]]
+            if len(env) >= 2 and env[-1]:
+                ups.append(-1)          # ctx._root.field
             up = r.choice(ups)
             field = r.choice(sorted(env[up]))
             keys = r.sample([0, 1, 2, 3, 7], r.randrange(1, 4))
@@ -1070,6 +1076,8 @@ def run(chk: Check):
     _tables(chk, "depth<=1", [["leaf"]] + _split(ALL_CONS, 7), ALL_LEAVES, ["U8"], ["CollP"], 1, 4, 8)
     _tables(chk, "ill-formed", [MISUSE_CONS], ["U8", "S8", "F32", "BG", "Null", "BA32", "STR8"], ["U8"], ["CollP"], 1, 4, 8,
             vacuous_ok=True)
+    _tables(chk, "context", _split(CTX_CONS, 4), ["U8", "U16", "S8", "UUID", "BA8", "CS", "BG", "Null", "BIT8"], ["U8"], ["CollP"],
+            1, 4, 10)
     if chk.tier == "quick":
         _tables(chk, "depth2-kernel", _split(ALL_CONS, 8), ["U8"], kernel, ALL_CONS, 2, 3, 6)
         _traces(chk, 1600, 4)
